@@ -186,6 +186,7 @@ def run(ctx):
                           {"program": progs[i], "level": l, "optimised_ast": r["ast"][str(l)][:4000]})
     ctx.cov["evaluations"] = nk + len(cases) + 3 * len(distinct)
     ctx.cov["distinct_nontrivial"] = len(distinct)
+    ctx.cov["model_too_slow"] = len([x for x in vlib.SLOW_CASES if x[0] == "c01"])
     ctx.cov["programs"] = len(distinct)
     ctx.cov["optimizer_outputs_validated"] = {"equivalent": cc.get(0, 0), "different": cc.get(1, 0), "model_out_of_fuel": cc.get(2, 0),
                                               "outside_fragment": cc.get(3, 0), "permitted_relaxation": cc.get(4, 0)}
